@@ -551,8 +551,12 @@ func (l *loopState) notifySteps() { //nolint:gocognit
 				l.logger.Debugf("Output node %s failed", nodeID)
 				// Check to see if there are any remaining output nodes, and if there aren't,
 				// cancel the context.
+				// An already unresolvable node is queued again for each further failed dependency.
+				// Only report the loss of the last possible output once; nobody drains the error
+				// channel after the run returned, so repeated reports would block while holding the lock.
+				_, wasWaiting := l.waitingOutputs[nodeID]
 				delete(l.waitingOutputs, nodeID)
-				if len(l.waitingOutputs) == 0 && !l.outputDone {
+				if wasWaiting && len(l.waitingOutputs) == 0 && !l.outputDone {
 					verifhook.Emit("ErrPush", "run", l, "kind", "nooutputs", "len", len(l.recentErrors))
 					l.recentErrors <- &ErrNoMorePossibleOutputs{
 						l.dag,
